@@ -5,12 +5,12 @@
      TaskSched.v   — the thread-pool task state machine (any interleaving of wake / worker / cancel)
      BarrierMergeQueue.v — MergeQueue / GlobalSort (any number of partitions, any block counts)
      BarrierStream.v     — ResultStream single-slot hand-off (any number of partitions / batches)
-     BarrierHashJoin.v   — hash-join build / insert / probe / drain phases (any number of partitions)
+     BarrierHashJoin.v   — hash-join build / insert / probe / drain / abandon phases (any numbers of build and probe partitions)
    `_refuted` theorems are counter-examples on the faithful model (reported as findings);
    `_partial` theorems are the strongest proved variant of a statement that does not hold in full. *)
 From Coq Require Import List Arith Bool.
 From GV Require Import lib.Lts model.ExecStack model.TaskSched model.BarrierMergeQueue model.BarrierStream model.BarrierHashJoin
-  proofs.ExecStackProofs proofs.TaskSchedProofs proofs.BarrierMQProofs proofs.BarrierStreamProofs proofs.BarrierHJProofs.
+  proofs.ExecStackProofs proofs.TaskSchedProofs proofs.BarrierMQProofs proofs.BarrierStreamProofs proofs.BarrierHJProofs proofs.BarrierHJThms.
 Import ListNotations.
 
 (* ---- proofs/ExecStackProofs.v ---- *)
